@@ -66,6 +66,9 @@ class Report(object):
         self.undecided = []
         self.broken = []
         self.t0 = time.time()
+        # replay files are per run: drop the ones of earlier runs of this property
+        import shutil
+        shutil.rmtree(os.path.join(REPLAYS, prop), ignore_errors=True)
 
     def violation(self, name, replay, confirmed):
         self.violations.append((name, replay, '' if confirmed else ' no-failing-input-found'))
